@@ -44,6 +44,10 @@ class C17:
                     ops.append(["node", 9])
             else:
                 ops = gen.random_history(rng, p_reject=0.02, p_none=0.0, p_empty=0.0, loops=bool(d), p_node=0.05)
+            if i % 37 == 3:
+                ops = gen.shift_times(ops, 2 ** 55 + 3)
+            elif i % 37 == 8:
+                ops = gen.shift_times(ops, -1000)
             yield hist_case(d, True, ops, src="rand")
 
     @staticmethod
